@@ -186,6 +186,19 @@ CHECKS = [
           'to the reference on the daemon\'s chain and mempool.',
   'note': 'As C07.',
   'design_ref': 'DESIGN.md section 4, C10'},
+ {'id': 'C11',
+  'technique': 'symx bounded symbolic execution (K1) + gate scheduler with solver-enumerated schedule deviations (K2)',
+  'text': 'K1: the real proof handlers (transaction_merkle, transaction_tsc_merkle, transaction_id_from_pos, block_header, '
+          'block_headers, _merkle_branch, header_branch_and_root, MerkleCache) on a real index whose headers carry the '
+          'true merkle roots; height, position and checkpoint height are symbolic integers: out-of-range requests must '
+          'raise RPCError, every in-range request (solver-enumerated) is folded by an independent hashlib-only function '
+          'and must give the header\'s merkle root / the root of the current block hashes; blocks of 1..8 and 200..203 '
+          'transactions.  K2: the full system under the gate scheduler with proofs requested before, inside and after '
+          'reorg windows and header reads of in-flight requests postponed past the reorg; at quiescence every header '
+          'proof (height <= cp <= tip) and every transaction proof verifies against the current chain.',
+  'note': 'Hashes are concrete in C11 so that the real double_sha256 can be folded independently (C12 covers the '
+          'functions with symbolic leaves).  Stubs as C07.',
+  'design_ref': 'DESIGN.md section 4, C11'},
 ]
-_TODO = 'check not built yet in this revision (planned, see DESIGN.md section 4); no claim is made'
-NOT_APPLICABLE = [{'property_id': f'C{n:02d}', 'reason': _TODO} for n in range(1, 20) if n not in (1, 2, 3, 4, 5, 7, 8, 9, 10, 12, 13, 14, 15, 16, 17, 18, 19)]
+_TODO = 'check not built yet in this revision (DESIGN.md section 4, C06: needs cancellation at every gate plus the thread-overlap mode); no claim is made'
+NOT_APPLICABLE = [{'property_id': f'C{n:02d}', 'reason': _TODO} for n in range(1, 20) if n not in (1, 2, 3, 4, 5, 7, 8, 9, 10, 11, 12, 13, 14, 15, 16, 17, 18, 19)]
